@@ -217,6 +217,57 @@ def validateDocumentGLR (L : LRData) (start : Nat) (root : Tree) : Cert := Id.ru
     versions := next.take maxVersions
   return .stuck "fuel"
 
+/-! ### `LexLocal` / `relex_same` evaluated on the real lexer
+
+Hypothesis of `relex_before`/`relex_after`/`incr_eq_scratch_tokens`: a token the edit did not reach
+re-lexes to itself.  On real data: every leaf of the EDITED old tree (offsets are already in new
+coordinates) that is not marked `has_changes` is compared with the leaf of the from-scratch tree at
+the same offset with the same symbol that was lexed in the same parse state (same lex mode):
+padding, size and `lookahead_bytes` must be equal.  Tokens whose window meets an included-range
+difference are exempt (the hypothesis of `relex_same_ranges`). -/
+
+mutual
+  def leavesAt (t : Tree) (off : Nat) (acc : Array (Nat × NodeData)) : Array (Nat × NodeData) :=
+    match t with
+    | .mk d [] => acc.push (off, d)
+    | .mk _ (k :: ks) => leavesAtL (k :: ks) off acc
+  def leavesAtL (ks : List Tree) (off : Nat) (acc : Array (Nat × NodeData)) : Array (Nat × NodeData) :=
+    match ks with
+    | [] => acc
+    | k :: rest => leavesAtL rest (off + k.totalBytes) (leavesAt k off acc)
+end
+
+structure RelexStats where
+  checked : Nat := 0
+  equal : Nat := 0
+  bad : Option String := none
+
+def relexCheck (oldEdited scratch : Tree) (diffs : List (Nat × Nat)) (oldEnd : Option Nat) : RelexStats := Id.run do
+  let sl := leavesAt scratch 0 #[]
+  let mut st : RelexStats := {}
+  let mut j := 0
+  for (o, d) in leavesAt oldEdited 0 #[] do
+    -- the EOF token is not a token in the sense of LexLocal (its padding is everything the lexer skipped to the end)
+    if d.hasChanges || d.isMissing || d.symbol == symError || d.symbol == symEnd then continue
+    -- tokens whose examined window meets an included-range difference are not claimed (relex_same_ranges)
+    if rangeIntersects diffs o (diffSpanEnd (.mk d []) o oldEnd) then continue
+    while j < sl.size && sl[j]!.1 < o do j := j + 1
+    -- candidates: scratch leaves at the same offset, same symbol, same parse state
+    let mut k := j
+    let mut found := false
+    let mut same := false
+    while k < sl.size && sl[k]!.1 == o do
+      let e := sl[k]!.2
+      if e.symbol == d.symbol && e.parseState == d.parseState && e.isKeyword == d.isKeyword then
+        found := true
+        if decide (e.padding = d.padding) && decide (e.size = d.size) && e.lookahead == d.lookahead then same := true
+      k := k + 1
+    if found then
+      st := { st with checked := st.checked + 1 }
+      if same then st := { st with equal := st.equal + 1 }
+      else st := { st with bad := st.bad <|> some s!"unmarked old token of symbol {d.symbol} at offset {o} (size {d.size.bytes}, lookahead {d.lookahead}) is lexed differently from scratch in the same parse state" }
+  return st
+
 /-- A reused subtree of the new tree together with its position in the new tree's token sequence. -/
 structure Reused where
   tree : Tree
